@@ -1086,7 +1086,10 @@ class LongItmdVariants(dict):
 
             is_new_remainder = False
             # possibly we got another -1 from matching the remainder
+            # (the prefactor the term needs for a factorization with a
+            #  prefactor of 1 changes sign accordingly)
             prefactor *= factor
+            unit_factorization_pref *= factor
 
             # next, we can separate them according to the itmd_positions
             # so we can later build intermediate variants more efficient
